@@ -218,6 +218,8 @@ def plan_C08(ctx):
     for k in range(5, 12):  # composite roots; leaf roots are covered as sub-terms and by one driver
         if ctx.thorough:
             for k2 in range(12):
+                if C08_KINDS[k] == "Loop" and C08_KINDS[k2] in ("Normal", "Continue", "For", "While", "Loop"):
+                    continue  # Loop(x) with a body that can never leave or yield diverges in any semantics: excluded by Assume(terminates), the shard would be vacuous
                 lines.append("func Drive_%s_%s() { Drive(%d, %d, %d, %d, %d, %d) }" % (C08_KINDS[k], C08_KINDS[k2], k, budget, depth, nops, nconds, k2))
                 n += 1
         else:
